@@ -171,6 +171,7 @@ def r1(ctx, cfg):
     R = "C14.R1"
     n_rm = 0
     n_sv = 0
+    rm_roots = set()
     for f in F.user_fns():
         if f.file != "src/staking.rs":
             continue
@@ -191,6 +192,7 @@ def r1(ctx, cfg):
                     saves.add(bid)
         for idx, (bid, t) in enumerate(rms):
             n_rm += 1
+            rm_roots.add(root)
             reach = cf.reachable_from(bid, avoid=list(unpair | errs))
             bad_ret = [r for r in cf.return_blocks() if r in reach]
             ok1 = not bad_ret
@@ -220,7 +222,12 @@ def r1(ctx, cfg):
             ctx.ob(R, root, "stakes-save-paired-with-staker-insert#%d" % idx, existed or paired,
                    "STAKES.save in %s (line %d) may create an entry whose delegator is not in ValidatorInfo.stakers" % (f.key, t["line"]), fn=f, line=t["line"],
                    sample="key was loaded before" if existed else "stakers.insert + VALIDATOR_INFO.save on every path")
-    ctx.floor(R, "STAKES.remove sites", n_rm, 4)
+    # the three places that must be able to drop a delegation entry (duplicated match arms may be merged by a refactoring,
+    # so the floor is on the places, not on the number of textual sites)
+    ctx.floor(R, "STAKES.remove sites", n_rm, 3)
+    want = {SK + "update_stake", SK + "slash", SK + "process_queue"}
+    ctx.ob(R, "-", "floor:functions-removing-delegations", want <= rm_roots, "STAKES.remove expected in %s, found in %s" % (sorted(want), sorted(rm_roots)),
+           sample=str(sorted(x.rsplit("::", 1)[1] for x in rm_roots)))
     ctx.floor(R, "STAKES.save sites", n_sv, 2)
     # the closures that rely on the invariant exist where expected
     exp = []
@@ -280,11 +287,43 @@ def r2(ctx, cfg):
         ld = store_calls(P, f, VINFO, ("may_load",))
         ok = len(ld) == 1
         if ok:
-            # the Option is turned into an error and propagated
-            ok = any(t["callee"]["key"] == "std::option::Option::ok_or_else" for b, t in f.calls())
-            sv = store_calls(P, f, VINFO, ("save",))
-            ok = ok and all(any(c[0] == "variant_in" and c[2] in (("Continue",), ("Ok",)) and contains(c[1], lambda x: x[0] == "call" and x[1] == "std::option::Option::ok_or_else")
-                                for e, c in q.dominating_conditions(P, f, b)) for b, t in sv)
+            # the absent record is turned into an error before anything is written - whatever the syntax
+            # (`may_load(..)?.ok_or_else(..)?` or `match may_load(..)? { Some(v) => v, None => bail!(..) }`):
+            # every switch on the loaded Option / on the Result made from it has its "absent" edge lead only to error returns,
+            # and every write is dominated by a "present" edge
+            cf = cfg_of(f)
+
+            def on_record(o):
+                return contains(o, lambda x: x[0] == "call" and x[1] == "cw_storage_plus::Map::may_load" and peel(x[2][0]) == VINFO)
+            present, absent = [], []
+            for sb in f.order:
+                tt = f.blocks[sb]["term"]
+                if tt["k"] != "switch" or "discr_of" not in tt:
+                    continue
+                so = peel(P.place(f, tt["discr_of"], (sb, "t")))
+                # the Option itself: ok(may_load(..)) ; or the Result built from it by ok_or / ok_or_else
+                is_opt = so[0] == "ok" and peel(so[1])[0] == "call" and peel(so[1])[1] == "cw_storage_plus::Map::may_load" and on_record(so)
+                is_res = so[0] == "call" and so[1] in ("std::option::Option::ok_or_else", "std::option::Option::ok_or") and on_record(so[2][0]) and \
+                    peel(so[2][0])[0] == "ok"
+                if not (is_opt or is_res):
+                    continue
+                for e, v, n, tb in cf.switch_edges(sb):
+                    if n in ("Some", "Continue", "Ok"):
+                        present.append(e)
+                    elif n in ("None", "Break", "Err"):
+                        absent.append(e)
+            writes = [b for b, t in f.calls() if t["callee"]["key"].startswith("cw_storage_plus::") and t["callee"]["name"] in ("save", "remove", "update")]
+            ok = bool(present) and bool(absent) and bool(writes) and all(any(cf.dominates(e, b) for e in present) for b in writes)
+            errs = error_blocks(P, f)
+            for e in absent:
+                reach = cf.reachable_from(e)
+                if any(b in reach for b in writes):
+                    ok = False
+                for b2, i2, st in f.stmts():
+                    if b2 in reach and st["k"] == "assign" and st["dst"]["l"] == 0 and not st["dst"]["p"] and b2 not in errs:
+                        o2 = peel(P.rvalue(f, st["rv"], (b2, i2)))
+                        if not (o2[0] == "call" and o2[1].endswith("FromResidual::from_residual")):
+                            ok = False
         ctx.ob(R, key, "unknown-validator-is-an-error-before-any-write", ok, "update_rewards does not reject an unknown validator before writing", fn=f,
                sample="may_load(..)?.ok_or_else(..)? dominates every save")
     # block updates unwrap only process_queue
